@@ -12,6 +12,8 @@ import Anko.Gen.ParserGen
 import Anko.Proofs.ScanTables
 import Anko.Gen.LexFlow
 import Anko.Props.LexFlowTable
+import Anko.Props.Tie.LexFlow
+import Anko.Props.Tie.Grammar
 
 namespace Anko.C15
 open Anko.Scan
@@ -224,6 +226,15 @@ scanNumber, scanString, scanRawString, the Lexer adapter, Parse / ParseSrc, toNu
 one written down in Props/LexFlowTable next to Model/Scanner, which mirrors these functions one by one (the tables of Gen/Lexer cover the keyword
 map, the character classes and the operator switch; this covers the control flow around them). Any edit of these functions - also a harmless one - breaks this obligation by name; the check then
 searches model and implementation for a failing input (DESIGN.md 13.3). -/
-theorem scanner_functions_are_the_modelled_ones : Gen.LexFlow.leaves = Tables.lexFlow := by decide +kernel
+theorem scanner_functions_are_the_modelled_ones : Gen.LexFlow.leaves = Tables.lexFlow := Tie.lexFlow
+
+/-! ### Shared source ties
+
+The code this property is anchored in is also written down, leaf statement by leaf statement, by the tables below (each decided once in
+Props/Tie, `decide +kernel`, against the table regenerated from /repo on this run). A change of that code breaks the tie by name here too, and the check of
+this property then searches for a failing input - so a change that breaks this property through code whose primary table belongs to another
+property is not overlooked. -/
+/-- the productions and actions of parser.go.y -/
+theorem source_tie_Grammar : Gen.Grammar.leaves = Tables.grammar := Tie.grammar
 
 end Anko.C15
